@@ -72,11 +72,27 @@ def gen_body(rng, in_bracket_ctx=False, n=None):
             nm = rng.choice(PLAIN_CMDS)
             exp[nm] = exp.get(nm, 0) + 1
             nargs = rng.choice([0, 1, 2])
-            parts.append('\\' + nm + ''.join('{%s}' % rng.choice(['a', 'x+1', '(', '\\$', 'b]', ''])
-                                               for _ in range(nargs)))
+            argbodies = []
+            for _ in range(nargs):
+                b = rng.choice(['a', 'x+1', '(', '\\$', 'b]', '', 'Z'])
+                if b == 'Z':
+                    z = rng.choice(ZERO)
+                    exp[z] = exp.get(z, 0) + 1
+                    b = 'a\\' + z + rng.choice(['[0,1)', '[', ' [x'])
+                argbodies.append(b)
+            parts.append('\\' + nm + ''.join('{%s}' % b for b in argbodies))
             after_cmd = 'args' if nargs else 'name'
         elif c < .72:
-            parts.append('{' + rng.choice(['x', 'a+b', '[', '(', '\\$']) + '}')
+            inner = rng.choice(['x', 'a+b', '[', '(', '\\$', 'Z'])
+            if inner == 'Z':
+                # a zero-argument operator followed by a bracket inside a
+                # brace group that is not a command argument (x_{i\in[0,n)})
+                z = rng.choice(ZERO)
+                exp[z] = exp.get(z, 0) + 1
+                inner = rng.choice(['i', '']) + '\\' + z + rng.choice(['[0,n)', '[', '[k', ' [0'])
+                if in_bracket_ctx:
+                    inner = inner.replace(']', ')')
+            parts.append(rng.choice(['', '_', '^']) + '{' + inner + '}')
             after_cmd = None
         elif c < .88:
             d = rng.choice(docgen.DELIMS)
@@ -187,6 +203,14 @@ class C12(Prop):
                                   'body': 'a\\%s%s b' % (pre, d) if not d[-1].isalpha()
                                   else 'a\\%s%s b' % (pre, d),
                                   'expect': {pre + d: 1}}
+            for pre in docgen.SIZING:
+                for d in ('.', '|', '(', '<'):
+                    for nxt in ('|', '.', ')', '>', '|x|'):
+                        k += 1
+                        if want(k):
+                            yield k, {'w': 'sizing', 'kind': kind, 'ctx': 'text',
+                                      'body': 'a\\%s%s%s b' % (pre, d, nxt),
+                                      'expect': {pre + d: 1}}
             for z in ZERO:
                 for b in ('[0,1)', '[', '(', ' [x', '[a]'):
                     k += 1
